@@ -1114,6 +1114,16 @@ impl Handler {
                     if let Some(request_id) = session.awaiting_enr.as_ref() {
                         if &response.id == request_id {
                             session.awaiting_enr = None;
+                            // The ENR request has been answered: retire it together with its
+                            // packet filter exemption. Otherwise it stays active, "times out"
+                            // later and fails every other request to this node with it.
+                            if self
+                                .active_requests
+                                .remove_request(&node_address, &response.id)
+                                .is_some()
+                            {
+                                self.remove_expected_response(node_address.socket_addr);
+                            }
                             match response.body {
                                 ResponseBody::Nodes { mut nodes, .. } => {
                                     // Received the requested ENR
